@@ -148,7 +148,11 @@ def peak_direction_stats(env, g):
         else:
             alts = []
             for k in isp:
-                if float(ms[k]) ** 2 + float(mc[k]) ** 2 > 0:
+                m2_ = float(ms[k]) ** 2 + float(mc[k]) ** 2
+                if m2_ <= 1e-18 * float(e1[k]) ** 2:
+                    # the first-moment vector of this bin vanishes (to rounding): its direction is undefined, any value goes
+                    alts.append(bool(ismax(k)))
+                else:
                     ref = (270.0 - math.degrees(math.atan2(float(ms[k]), float(mc[k])))) % 360.0
                     alts.append(bool(ismax(k)) and angdiff(dpm, ref) < 1e-3)
             env.claim(any(alts), "dpm = direction of the first moments of the peak frequency bin", {"dpm": float(dpm)})
